@@ -4,8 +4,8 @@
                     copy_username (-l: errx when strlen > limit, BEFORE the strcpy into the buffer of
                     limit + 1 bytes), wcoll_arg_process (the same test on the user of a `user@hosts` word)
   A user name within the limit reaches the transport unchanged (Opt/Rcmd.lean); one beyond it ends the
-  run before any connection.  Assumption of the model: every -l but the last one is within the limit
-  (opt.c tests each -l as it comes; `Cfg.optL` is the last one).
+  run before any connection.  opt.c tests EVERY -l as it comes (copy_username inside the option loop), not only
+  the last one (`Cfg.optL`): `runCheckedAll` takes the earlier ones as well.
 -/
 import PdshVerif.Opt.Rcmd
 
@@ -64,5 +64,34 @@ theorem runChecked_eq (m : Nat) (re : Bool) (cfg : Cfg) (words : List Word) (tar
       | none => simp
       | some u => have := hw w hwm u hu; simp; omega
   simp [runChecked, this]
+
+/-- the run as opt.c decides it: every -l of the command line is tested when it is read (`earlierL`: the -l options
+    before the last one, which is `cfg.optL`), then the words, then the run -/
+def runCheckedAll (maxUser : Option Nat) (re : Bool) (cfg : Cfg) (earlierL : List Str) (words : List Word)
+    (targets : List Str) : Outcome :=
+  match maxUser with
+  | some m => if earlierL.any (fun u => decide (u.length > m)) then .fatal
+              else runChecked maxUser re cfg words targets
+  | none => runChecked maxUser re cfg words targets
+
+/-- a -l beyond the limit refuses the run WHEREVER it stands, also when a later -l replaces it -/
+theorem long_l_anywhere_refused (m : Nat) (re : Bool) (cfg : Cfg) (earlierL : List Str) (words : List Word)
+    (targets : List Str) (h : ∃ u ∈ earlierL, u.length > m) :
+    runCheckedAll (some m) re cfg earlierL words targets = .fatal := by
+  obtain ⟨u, hu, hl⟩ := h
+  have : earlierL.any (fun u => decide (u.length > m)) = true :=
+    List.any_eq_true.mpr ⟨u, hu, by simp [hl]⟩
+  simp [runCheckedAll, this]
+
+/-- when every earlier -l is within the limit they do not matter: only the last -l reaches the run -/
+theorem runCheckedAll_eq (m : Nat) (re : Bool) (cfg : Cfg) (earlierL : List Str) (words : List Word)
+    (targets : List Str) (h : ∀ u ∈ earlierL, u.length ≤ m) :
+    runCheckedAll (some m) re cfg earlierL words targets = runChecked (some m) re cfg words targets := by
+  have : earlierL.any (fun u => decide (u.length > m)) = false := by
+    rw [List.any_eq_false]
+    intro u hu
+    have := h u hu
+    simp; omega
+  simp [runCheckedAll, this]
 
 end PdshVerif.Opt.Rcmd
